@@ -1,6 +1,7 @@
 /- Line-protocol handlers for C09 (interval honoured, no leak into costs); reuses the C02 input decoding. -/
 import PandoraModel.Driver.C02
 import PandoraModel.Model.IntervalWta
+import PandoraModel.Driver.C09Pipeline
 
 namespace Pandora.Driver.C09
 open Lean (Json)
@@ -162,6 +163,7 @@ def handle (op : String) (j : Json) : Except String Json :=
   match op with
   | "C09.pair" => pair j
   | "C09.inside" => inside j
+  | "C09.hyp" => Pandora.Driver.C09Pipeline.hyp j
   | _ => throw s!"unknown op {op}"
 
 end Pandora.Driver.C09
